@@ -196,6 +196,9 @@ pub struct EncObs {
     pub probes: Vec<Option<Vec<u8>>>,
     /// address of recovery(0) (in-place check); not part of equality tests
     pub addr0: usize,
+    /// disagreements between the Iterator methods of recovery_iter() (nth,
+    /// skip, step_by, last, count, size_hint) and repeated next()
+    pub protocol: Vec<String>,
 }
 
 #[derive(Clone, PartialEq, Eq, Debug, Default)]
@@ -206,6 +209,8 @@ pub struct DecObs {
     /// restored_original(i) for each probe index
     pub probes: Vec<Option<Vec<u8>>>,
     pub addr_first: usize,
+    /// as in `EncObs`
+    pub protocol: Vec<String>,
 }
 
 // ======================================================================
@@ -243,6 +248,45 @@ pub trait DynDec {
     fn into_work(self: Box<Self>) -> Option<DecoderWork>;
 }
 
+/// The Iterator contract: every provided method must agree with what
+/// repeated `next()` yields. `make` creates a fresh iterator each time.
+fn iterator_protocol<I, F>(make: F) -> Vec<String>
+where
+    I: Iterator,
+    I::Item: PartialEq + Clone,
+    F: Fn() -> I,
+{
+    let all: Vec<I::Item> = make().collect();
+    let n = all.len();
+    let mut bad = Vec::new();
+    if make().count() != n {
+        bad.push("count() disagrees with next()".to_string());
+    }
+    let (lo, hi) = make().size_hint();
+    if lo > n || hi.is_some_and(|h| h < n) {
+        bad.push(format!("size_hint ({lo}, {hi:?}) excludes the real length {n}"));
+    }
+    for j in [0, 1, n.saturating_sub(1), n, n + 5, usize::MAX / 2, usize::MAX] {
+        if make().nth(j) != all.get(j).cloned() {
+            bad.push(format!("nth({j}) on a fresh iterator disagrees with next()"));
+        }
+        // the same after the iterator has been advanced once
+        let mut it = make();
+        if it.next().is_some() && it.nth(j) != all.get(j.saturating_add(1)).cloned() {
+            bad.push(format!("nth({j}) after one next() disagrees with next()"));
+        }
+    }
+    if make().last() != all.last().cloned() {
+        bad.push("last() disagrees with next()".to_string());
+    }
+    let stepped: Vec<I::Item> = make().skip(1).step_by(2).collect();
+    let want: Vec<I::Item> = all.iter().skip(1).step_by(2).cloned().collect();
+    if stepped != want {
+        bad.push("skip(1).step_by(2) disagrees with next()".to_string());
+    }
+    bad
+}
+
 fn observe_enc(res: &reed_solomon_simd::EncoderResult, probes: &[usize]) -> EncObs {
     let mut it = res.recovery_iter();
     let mut iter = Vec::new();
@@ -263,6 +307,7 @@ fn observe_enc(res: &reed_solomon_simd::EncoderResult, probes: &[usize]) -> EncO
             .map(|i| res.recovery(*i).map(<[u8]>::to_vec))
             .collect(),
         addr0: res.recovery(0).map_or(0, |s| s.as_ptr() as usize),
+        protocol: iterator_protocol(|| res.recovery_iter()),
     }
 }
 
@@ -312,6 +357,7 @@ fn observe_dec(res: &reed_solomon_simd::DecoderResult, probes: &[usize]) -> DecO
             .map(|i| res.restored_original(*i).map(<[u8]>::to_vec))
             .collect(),
         addr_first,
+        protocol: iterator_protocol(|| res.restored_original_iter()),
     }
 }
 
